@@ -16,6 +16,8 @@ func init() {
 			c.guard("SEQ.START", func() { s.ruleStart() })
 			c.guard("SEQ.FOR", s.ruleFor)
 			c.guard("SEQ.OVERLAP", s.ruleOverlap)
+			// a term is iterated through the iterator Start returns: a step must not be consumed twice
+			c.guard("SEQ.GEN", s.ruleGenHist)
 			c.guard("SEQ.LAZY", s.ruleLazyIters)
 		},
 	})
@@ -56,6 +58,10 @@ func init() {
 			s := newSeqRT(c)
 			c.guard("SEQ.SYNC", s.ruleSync)
 			c.guard("SEQ.CHAIN", s.ruleChain)
+			// "out of exactly the MoveNext or Send call whose step executed the panicking statement": each
+			// consumer call runs exactly the steps the protocol assigns to it (a Send that primes twice runs
+			// the panicking step one call early)
+			c.guard("SEQ.GEN", s.ruleGenHist)
 			c.guard("SEQ.TAKE", s.ruleSuspend)
 			c.guard("SEQ.START", func() { s.ruleStart() })
 			c.guard("SEQ.DELAY", s.ruleDelay)
